@@ -441,7 +441,12 @@ fn eval_node_test(
 ) -> error::Result<bool> {
     match test {
         expr::NodeTest::Name(name) => match name {
-            expr::NameTest::All => Ok(true),
+            // `*` selects nodes of the principal node type of the axis only: elements,
+            // or attributes / namespace nodes on those axes (which hold nothing else).
+            expr::NameTest::All => Ok(matches!(
+                node,
+                dom::XmlNode::Element(_) | dom::XmlNode::Attribute(_) | dom::XmlNode::Namespace(_)
+            )),
             expr::NameTest::Namespace(prefix) => {
                 let uri_a = context
                     .get_ns_uri(Some(prefix))
